@@ -133,6 +133,10 @@ impl Plan {
                 f.push(Fam::Json { lvl: if self.light { Lvl::Small } else { lvl } });
                 if full {
                     f.push(Fam::Trunc);
+                    // two simultaneous deviations, for documents small enough to square
+                    if JsonPlan::new(&base.bytes, Lvl::Small).map(|p| p.count() <= 700).unwrap_or(false) {
+                        f.push(Fam::Json2);
+                    }
                 }
             }
             Kind::Raw => {
@@ -420,6 +424,13 @@ impl Builder {
                     let n = plan.count();
                     self.push(d, tgt.site, label, n, None, true, Box::new(move |k| w(&plan.apply(k))));
                 }
+                Fam::Json2 => {
+                    let Some(plan) = JsonPlan::new(&base, Lvl::Small) else { continue };
+                    let plan = Arc::new(plan);
+                    let w = wrap.clone();
+                    let n = plan.count2();
+                    self.push(d, tgt.site, label, n, None, true, Box::new(move |k| w(&plan.apply2(k))));
+                }
                 fam => {
                     let n = fam.count(&base);
                     let (b, w) = (base.clone(), wrap.clone());
@@ -484,6 +495,26 @@ impl Builder {
                 Some(w) => w(&x),
                 None => x,
             }
+        });
+    }
+
+    /// all strings of length <= 3 over a small text alphabet (for the entry points that take &str)
+    fn blind_text(&mut self, decoder: &str, site: &'static str) {
+        const ALPHA: [&str; 10] = ["0", "7", "b", "f", "g", "\"", "{", "[", " ", "\u{e9}"];
+        let n = 1 + 10 + 100 + 1000;
+        self.func(decoder, site, "blind short text", n, |k| {
+            let (len, mut r) = match k {
+                0 => (0, 0),
+                1..=10 => (1, k - 1),
+                11..=110 => (2, k - 11),
+                _ => (3, k - 111),
+            };
+            let mut s = String::new();
+            for _ in 0..len {
+                s.push_str(ALPHA[(r % 10) as usize]);
+                r /= 10;
+            }
+            s.into_bytes()
         });
     }
 
@@ -794,6 +825,9 @@ pub fn build(tier: Tier, w: &Worlds) -> Space {
         b.blind_bytes(name, site, Some(&hexw));
         b.cbor_bombs(name, site, Some(&hexw));
         b.json_bombs(name, "protocol-key-json-hex", Some(&hexw));
+    }
+    for d in dec::DECODERS.iter().filter(|d| d.text) {
+        b.blind_text(d.name, "protocol-key-hex");
     }
     for name in [
         "stm/single-signature.json",
